@@ -81,6 +81,109 @@ def ops_for(entry, rng, nctx):
     return ops
 
 
+CHAIN_YAML = """\
+meta:
+  imports: {fx: "probe.test/fx"}
+  functions: {fn: "fx.Fn"}
+parameters:
+  P: "%fn()%"
+services:
+  A: {constructor: fx.NewA, arguments: ["%P%"], scope: shared}
+  B: {constructor: fx.NewB, arguments: ["@A"], scope: contextual}
+  C: {constructor: fx.NewC, arguments: ["@B", "@A"], scope: non_shared}
+"""
+
+
+def fine_traces(tier, v, rng):
+    """small concurrent runs validated against the fine-grained actions of ContainerConc.tla (Trace_ContainerConc):
+    TLC has to find an interleaving of Lock / Check / Dep / Construct / Store / Unlock that explains the observed order of
+    constructions and returns and the observed instance identities."""
+    import concurrent.futures
+    wd = core.subdir("c20-fine")
+    with open(os.path.join(wd, "in.yaml"), "w") as f:
+        f.write(CHAIN_YAML)
+    pool = core.DriverPool(1)
+    try:
+        rs = pool.run_all([{"id": 0, "dir": wd, "args": ["-i", "in.yaml", "-o", "out.go"], "version": "dev-main", "buildinfo": "verif",
+                            "out": "out.go", "want_out": True}])[0]
+    finally:
+        pool.close()
+    if rs["exit"] != 0:
+        return {"fine_traces": 0, "note": "chain configuration rejected (unobservable here)"}
+    pb = probemod.Probe(name="probe-C20-fine")
+    pb.add("chain", rs["out_data"])
+    if "chain" not in set(pb.build(race=True)):
+        return {"fine_traces": 0, "note": "chain configuration does not compile (unobservable here)"}
+    n = 24 if tier == "quick" else 160
+    scripts, metas = [], []
+    for k in range(n):
+        G = rng.choice([2, 2, 3])
+        groups = []
+        for g in range(G):
+            ops = []
+            for _ in range(2):
+                c = rng.random()
+                if c < 0.4:
+                    ops.append({"op": "Get", "id": rng.choice(["A", "B", "C"])})
+                elif c < 0.85:
+                    ops.append({"op": "GetInContext", "id": rng.choice(["A", "B", "C"]), "ctx": rng.choice([1, 2])})
+                else:
+                    ops.append({"op": "GetParam", "id": "P"})
+            groups.append(ops)
+        scripts.append({"id": k, "pkg": "chain", "ops": [{"op": "Par", "groups": groups, "repeat": 1}]})
+        metas.append(groups)
+    out = pb.run(scripts, procs=4, env=dict(os.environ, GORACE="halt_on_error=1 exitcode=66"))
+    shutil.rmtree(pb.dir, ignore_errors=True)
+    traces = []
+    for k, groups in enumerate(metas):
+        rr = out.get(k)
+        if rr is None or rr.get("crashed") is not None or rr.get("timeout") or rr.get("err") or "par" not in (rr["res"][0] if rr.get("res") else {}):
+            if rr is not None and rr.get("crashed") is not None and "DATA RACE" in rr.get("stderr", ""):
+                v.disagree("data-race", {"configuration": CHAIN_YAML}, {"stderr": rr["stderr"][:1500]}, tags={"config": "chain"})
+            continue
+        par = rr["res"][0]
+        rets = {(o["g"], o["i"]): o for lst in par["par"] for o in lst}
+        lines = [{"ev": "cfg", "ops": [[{"op": o["op"], "id": o["id"], "ctx": o.get("ctx", 0)} for o in grp] for grp in groups]}]
+        bad = False
+        for ev in par["events"]:
+            if ev["ev"] == "op_start":
+                lines.append({"ev": "op_start", "g": ev["g"] + 1})
+            elif ev["ev"] == "ctor":
+                lines.append({"ev": "ctor", "name": ev["name"], "serial": ev["serial"]})
+            elif ev["ev"] == "fn":
+                lines.append({"ev": "fn", "name": ev["name"]})
+            elif ev["ev"] == "op_return":
+                o = rets[(ev["g"], ev["i"])]
+                if "ok" not in o:
+                    v.disagree("operation-fails-under-concurrency", {"configuration": CHAIN_YAML}, {"op": o}, tags={"config": "chain"})
+                    bad = True
+                    break
+                lines.append({"ev": "op_return", "g": ev["g"] + 1, "serial": o["ok"].get("id", 0) if o["ok"].get("k") == "obj" else 0})
+        if not bad:
+            traces.append(lines)
+
+    def validate(lines):
+        r = core.run_tlc("Trace_ContainerConc.tla", "Trace_ContainerConc.cfg", workers=1, timeout=900, want_emits=False,
+                         extra_files={"trace.ndjson": "\n".join(json.dumps(x) for x in lines) + "\n"})
+        core.check_tlc_error(r, "validating a small concurrent run against ContainerConc")
+        hw = None
+        for ln in r.raw_tail.split("\n"):
+            if ln.startswith('<<"HW"'):
+                hw = int(ln.strip("<>").split(",")[1])
+        return r, hw
+    n_ok = 0
+    with concurrent.futures.ThreadPoolExecutor(max_workers=max(2, core.NCPU // 2)) as ex:
+        for lines, (r, hw) in zip(traces, ex.map(validate, traces)):
+            if hw == len(lines) + 1 and not r.violation:
+                n_ok += 1
+            else:
+                v.disagree("run-is-not-a-behaviour-of-ContainerConc", {"configuration": CHAIN_YAML},
+                           {"tlc": (r.violation or "no interleaving of the model explains the observed events")[:200],
+                            "stuck_at": lines[(hw or 2) - 1:(hw or 2) + 1], "ops": lines[0]["ops"], "trace": lines[1:40]}, tags={"config": "chain"})
+    shutil.rmtree(wd, ignore_errors=True)
+    return {"fine_traces": len(traces), "fine_traces_accepted": n_ok, "sample": traces[0] if traces else None}
+
+
 def run_c20(tier):
     pid = "C20"
     t0 = time.time()
@@ -242,18 +345,19 @@ def run_c20(tier):
                    {"tlc": (r.violation or "event not enabled")[:200], "event": lines[a:b][off:off + 2], "cfg_event": lines[a]},
                    tags={"config": e["name"]})
         del owners[bad]
+    fine = fine_traces(tier, v, rng)
     if n_runs < 5 and not v.violations:
         raise core.InfraError("degenerate exploration: %d concurrent runs" % n_runs)
     rc = v.finish(tier, t0)
     core.write_evidence(pid, tier, "model_checking", {
         "states": states, "transitions": gen, "traces_validated_against_impl": n_valid,
-        "samples": [{"trace_head": lines[:6]}],
+        "samples": [{"trace_head": lines[:6]}, {"fine_grained_trace": fine.get("sample")}],
         "evaluations": n_runs, "distinct_nontrivial": len(live) * len(Gs),
         "rule": "design: every interleaving of ContainerConc.tla for the instances two / three / params (cyclic must deadlock); code: %d "
                 "configurations (model-enumerated graphs x scopes from MC_Container/%s and hand-made ones with multi-chunk patterns, env functions, "
                 "derived contextual scope, tags, decorators, getters) x goroutine counts %s x %d runs of 3 rounds of 4 random operations per goroutine "
                 "over 3 contexts, under the race detector; distinct_nontrivial = configuration x goroutine count" % (len(live), fam, Gs, reps),
-        "exhaustive": False, "tlc_instances": tlc, "operations_returned": n_ops, "trace_events": len(lines),
+        "exhaustive": False, "tlc_instances": tlc, "fine_grained_binding": {k: x for k, x in fine.items() if k != "sample"}, "operations_returned": n_ops, "trace_events": len(lines),
         "known_findings_hit": {k: n for k, (f, n) in v.known_hit.items()},
     }, time.time() - t0, violations=len(v.violations), assumptions=[
         "interleavings of the real program are sampled by the Go scheduler, not enumerated; the model explores them exhaustively only on its own abstraction",
